@@ -90,7 +90,9 @@ def o_sum(ctx):
     # profile rows are [ph, unfolded, folded] on the grid
     # grids whose step has one or several significant digits, starting on and off a multiple of the step
     lo, step = ctx.choice('grid', [(0.0, 1.0), (2.0, 0.25), (0.5, 1.0), (0.0, 2.5), (1.0, 0.125), (3.0, 0.5)])
-    rows = mol.get_charge_profile('AVR', grid=(lo, lo + 2 * step, step))
+    # the upper end on a grid point, or beyond the last grid point by less than a step (span not a multiple of the step)
+    over = ctx.choice('end_beyond_last_point', [0.0, 0.4, 0.9])
+    rows = mol.get_charge_profile('AVR', grid=(lo, lo + (2 + over) * step, step))
     ctx.claim('profile-grid', len(rows) == 3 and all(abs(r[0] - (lo + i * step)) < 1e-9 for i, r in enumerate(rows)),
               detail='grid (%g, %g, %g): reported pH %r' % (lo, lo + 2 * step, step, [r[0] for r in rows]))
     for i, r in enumerate(rows):
